@@ -104,7 +104,11 @@ def gen_pairs(ctx, n):
             out.append((x, y))
     # items at one index that are == but of different types, left unpaired by some knob settings; a set against the frozenset of the same members
     for (x, y) in [([5, 1], [5, True]), ([0, 'a'], [False, 'a']), ([{1}], [frozenset({1})]), ([5, {1, 2}], [5, frozenset({1, 2})]), ({'k': [3, 1]}, {'k': [3, True]}),
-                   ([1, 2, 3], [True, 2, 3])]:          # not tuples such as (1, 2) / (True, 2): they are == and share one entry of the hashes table (NoNumAlias)
+                   ([1, 2, 3], [True, 2, 3]),
+                   # text leaves that differ only in what a lenient comparison could drop: a byte order mark, surrounding white space, letter case, a NUL
+                   ([b'\xef\xbb\xbfabc', 1, 2], [2, 1, b'abc']), ([b'\xef\xbb\xbf', 0], [0, b'']), ([[b'\xef\xbb\xbfk'], 'z'], ['z', [b'k']]),
+                   ([{'t': b'\xef\xbb\xbfabc'}, 5], [5, {'t': b'abc'}]), (['\ufeffabc', 1], [1, 'abc']), ([' a', 1], [1, 'a']), (['a\n', 1], [1, 'a']),
+                   (['A', 1], [1, 'a']), ([b'abc\x00', 1], [1, b'abc'])]:          # not tuples such as (1, 2) / (True, 2): they are == and share one entry of the hashes table (NoNumAlias)
         out.append((x, y))
     # a dictionary inside an order-ignored list whose later value holds the very object that is an earlier key's value (small ints, interned
     # strings, None): dropping or changing that inner member is a difference
